@@ -152,6 +152,10 @@ def _pair(orig, cp, out):
     elif isinstance(orig, (list, tuple)):
         for a, b in zip(orig, cp):
             _pair(a, b, out)
+    elif hasattr(orig, "__dict__") and hasattr(cp, "__dict__"):
+        for k, a in vars(orig).items():
+            if k in vars(cp):
+                _pair(a, vars(cp)[k], out)
 
 
 def real_call(contract, kwargs):
